@@ -898,6 +898,9 @@ func c01FunctionTable(w *World, r *Report) {
 					return true
 				})
 				if !found {
+					found = c01AnchorThroughHelper(w, impl, an.callee, an.args)
+				}
+				if !found {
 					probs = append(probs, fmt.Sprintf("result is not built from %s on the arguments in order", an.callee))
 				}
 			}
@@ -1392,4 +1395,84 @@ func c01Dispatch(w *World, r *Report) {
 			r.Check(order == "" && args == "" && deleg == "", "R01.2", spec.meth+" default arm", f.Pos(), "numFn(left, right)", "non-node-set operands of a relational operator are not compared as numbers in (left,right) order: "+order+args+deleg)
 		}
 	}
+}
+
+// c01AnchorThroughHelper: the built-in impl hands its argument list to a helper
+// of the package that applies the library function callee — named there, or
+// handed over as a function value — to the accessor results of args[want…] in
+// order.
+func c01AnchorThroughHelper(w *World, impl *types.Func, callee string, want []int) bool {
+	f := w.SSAFunc(impl)
+	if f == nil || len(f.Params) < 2 {
+		return false
+	}
+	argsParam := f.Params[len(f.Params)-1]
+	for _, b := range f.Blocks {
+		for _, in := range b.Instrs {
+			c, ok := in.(*ssa.Call)
+			if !ok {
+				continue
+			}
+			h := c.Call.StaticCallee()
+			if h == nil || h.Pkg != f.Pkg || h.Blocks == nil || h == f {
+				continue
+			}
+			// which parameter of h is the argument list, which (if any) the library function
+			var hArgs, hFn *ssa.Parameter
+			for i, a := range c.Call.Args {
+				if i >= len(h.Params) {
+					break
+				}
+				if a == ssa.Value(argsParam) {
+					hArgs = h.Params[i]
+				}
+				for _, fv := range funcValues(a, 0) {
+					if fv.String() == callee {
+						hFn = h.Params[i]
+					}
+				}
+			}
+			if hArgs == nil {
+				continue
+			}
+			for _, hb := range h.Blocks {
+				for _, hin := range hb.Instrs {
+					hc, ok := hin.(*ssa.Call)
+					if !ok {
+						continue
+					}
+					isCallee := (hc.Call.StaticCallee() != nil && hc.Call.StaticCallee().String() == callee) || (hFn != nil && hc.Call.Value == ssa.Value(hFn))
+					if !isCallee || len(hc.Call.Args) < len(want) {
+						continue
+					}
+					good := true
+					for i, k := range want {
+						// accessor(args[k])
+						ac, ok := hc.Call.Args[i].(*ssa.Call)
+						if !ok || !ac.Call.IsInvoke() {
+							good = false
+							break
+						}
+						ld, ok := ac.Call.Value.(*ssa.UnOp)
+						if !ok {
+							good = false
+							break
+						}
+						ia, ok := ld.X.(*ssa.IndexAddr)
+						if !ok || ia.X != ssa.Value(hArgs) {
+							good = false
+							break
+						}
+						if idx, ok := intConstOf(ia.Index); !ok || int(idx) != k {
+							good = false
+						}
+					}
+					if good {
+						return true
+					}
+				}
+			}
+		}
+	}
+	return false
 }
